@@ -30,10 +30,11 @@ import (
 // ---- recording dialector / migrator ----
 
 type recState struct {
-	log      []string // "AddColumn table col", ...
-	delegate bool     // run the SQLite migrator's DDL as well
-	aliases  map[string][]string
-	rec      *recdrv.Recorder
+	log                          []string // "AddColumn table col", ...
+	delegate                     bool     // run the SQLite migrator's DDL as well
+	aliases                      map[string][]string
+	rec                          *recdrv.Recorder
+	genericIndex, genericColumns bool
 }
 
 type recDialector struct {
@@ -103,9 +104,27 @@ func (m recMig) DropConstraint(value interface{}, name string) error {
 func (m recMig) CreateIndex(value interface{}, name string) error {
 	m.note("CreateIndex", value, name)
 	if m.st.delegate {
+		if m.st.genericIndex {
+			// gorm's generic CreateIndex / BuildIndexOptions (what other dialects run): sound on
+			// SQLite for indexes without WHERE
+			return m.Migrator.Migrator.CreateIndex(value, name)
+		}
 		return m.Migrator.CreateIndex(value, name)
 	}
 	return nil
+}
+func (m recMig) BuildIndexOptions(opts []schema.IndexOption, stmt *gorm.Statement) []interface{} {
+	if m.st.genericIndex {
+		return m.Migrator.Migrator.BuildIndexOptions(opts, stmt)
+	}
+	return m.Migrator.BuildIndexOptions(opts, stmt)
+}
+func (m recMig) ColumnTypes(value interface{}) ([]gorm.ColumnType, error) {
+	if m.st.genericColumns {
+		// gorm's generic ColumnTypes (SELECT * LIMIT 1 + database/sql column types)
+		return m.Migrator.Migrator.ColumnTypes(value)
+	}
+	return m.Migrator.ColumnTypes(value)
 }
 func (m recMig) DropIndex(value interface{}, name string) error {
 	m.note("DropIndex", value, name)
@@ -146,6 +165,10 @@ func open(st *recState, flags ...string) (*gorm.DB, *recdrv.Recorder) {
 			cfg.IgnoreRelationshipsWhenMigrating = true
 		case "both":
 			cfg.DisableForeignKeyConstraintWhenMigrating, cfg.IgnoreRelationshipsWhenMigrating = true, true
+		case "genericindex":
+			st.genericIndex = true
+		case "genericcolumns":
+			st.genericColumns = true
 		}
 	}
 	db, err := gorm.Open(recDialector{Dialector: sqlite.Dialector{Conn: sqlDB}, st: st}, cfg)
@@ -389,6 +412,7 @@ var pairs = []pair{
 	{"P7", &P7{}, &P7v2{}, nil},
 	{"P8", &P8{}, &P8v2{}, []interface{}{&P8Tag{}}},
 	{"P9", &P9{}, &P9v2{}, nil},
+	{"P10", &P10Emp{}, &P10Empv2{}, []interface{}{&P10Co{}, &P10Dept{}, &P10Badge{}, &P10Task{}, &P10Note{}}},
 }
 
 type RoundIn struct {
@@ -499,6 +523,9 @@ func migrateObserved(db *gorm.DB, rec *recdrv.Recorder, st *recState, model inte
 	var fks []string
 	if !db.DisableForeignKeyConstraintWhenMigrating && !db.IgnoreRelationshipsWhenMigrating {
 		for _, rel := range sch.Relationships.Relations {
+			if rel.Field.IgnoreMigration {
+				continue // a relation tagged -:migration is excluded from migration
+			}
 			if c := rel.ParseConstraint(); c != nil && c.Schema == sch {
 				fks = append(fks, c.Name)
 			}
@@ -582,6 +609,9 @@ func runRound(in RoundIn) RoundObs {
 	st := &recState{delegate: true, aliases: map[string][]string{}}
 	db, rec := open(st, in.Flags)
 	defer func() { s, _ := db.DB(); s.Close() }()
+	if in.Flags == "tableopts" {
+		db = db.Set("gorm:table_options", " STRICT").Session(&gorm.Session{})
+	}
 	for _, d := range p.Deps {
 		if err := db.AutoMigrate(d); err != nil {
 			o.Errs = append(o.Errs, "deps: "+err.Error())
@@ -625,6 +655,14 @@ func runRound(in RoundIn) RoundObs {
 				o.Errs = append(o.Errs, "v2 record differs: "+string(a)+" vs "+string(b))
 			}
 		}
+	}
+	// DryRun: AutoMigrate of the extended model in DryRun mode sends no schema-changing statement
+	rec.Reset()
+	if err := db.Session(&gorm.Session{DryRun: true, Logger: logger.Discard}).AutoMigrate(p.V2); err != nil {
+		o.Errs = append(o.Errs, "dry run: "+err.Error())
+	}
+	if n := len(ddlOf(rec)); n > 0 {
+		o.Errs = append(o.Errs, fmt.Sprintf("dry run sent %d schema-changing statements", n))
 	}
 	if in.Pair == "P8" && in.Flags != "ignorerel" && in.Flags != "both" {
 		// (IgnoreRelationshipsWhenMigrating: the join tables are not migrated, by design)
@@ -755,7 +793,9 @@ func fillRecord(r *lib.Rng, model interface{}, i int) interface{} {
 			case f.Kind() == reflect.Map:
 				f.Set(reflect.ValueOf(map[string]int64{"k": int64(i)}))
 			case f.Kind() == reflect.Struct && f.Type().PkgPath() == "main":
-				fill(f, depth+1)
+				if _, isModel := f.Type().FieldByName("ID"); !isModel { // associations are left empty
+					fill(f, depth+1)
+				}
 			}
 		}
 	}
@@ -932,11 +972,18 @@ func main() {
 		}
 	}
 	// the migrator's configuration switches, one at a time and together, on the models with relations
-	for _, pn := range []string{"P6", "P8"} {
+	for _, pn := range []string{"P6", "P8", "P10"} {
 		for _, fl := range []string{"disablefk", "ignorerel", "both"} {
 			addRound("main", RoundIn{Pair: pn, Rows: 2, Seed: r.U64(), Flags: fl})
 		}
 	}
+	// other dialect capabilities / options: gorm's generic index creation, generic ColumnTypes,
+	// table options
+	for _, pn := range []string{"P1", "P5", "P7", "P3"} {
+		addRound("main", RoundIn{Pair: pn, Rows: 2, Seed: r.U64(), Flags: "genericindex"})
+	}
+	addRound("main", RoundIn{Pair: "P5", Rows: 2, Seed: r.U64(), Flags: "genericcolumns"})
+	addRound("main", RoundIn{Pair: "P5", Rows: 2, Seed: r.U64(), Flags: "tableopts"})
 	// reorder cases
 	names := []string{"RA", "RB", "RC", "RD", "Owner", "P6", "P1"}
 	nre := 20
